@@ -166,7 +166,9 @@ void vfail(bool hard, const char* cls, const char* key, const char* fmt, va_list
 			g.hardHandler(cls, key, buf);
 		else
 			fprintf(stderr, "HARD FAILURE %s %s %s\n", cls, key, buf);
-		fflush(0);
+		// not fflush(0): a parked simulated thread may hold the lock of its own stream (it is inside a disk transfer)
+		fflush(stdout);
+		fflush(stderr);
 		_exit(70);
 	}
 	for (auto& f : g.out->failures)
